@@ -102,6 +102,23 @@ func HTMLOutlinks(item *models.Item) (outlinks []*models.URL, err error) {
 	return outlinks, nil
 }
 
+// isASCIIWhitespace reports whether c is one of the characters HTML calls ASCII whitespace.
+func isASCIIWhitespace(c rune) bool {
+	return c == ' ' || c == '\t' || c == '\n' || c == '\f' || c == '\r'
+}
+
+// srcsetURLs returns the URL of every image candidate of a srcset attribute value.
+// The URL of a candidate ends at the first ASCII whitespace; a descriptor may follow.
+func srcsetURLs(value string) (urls []string) {
+	for _, candidate := range strings.Split(value, ",") {
+		if fields := strings.FieldsFunc(candidate, isASCIIWhitespace); len(fields) > 0 {
+			urls = append(urls, fields[0])
+		}
+	}
+
+	return urls
+}
+
 func HTMLAssets(item *models.Item) (assets []*models.URL, err error) {
 	logger := log.NewFieldedLogger(&log.Fields{
 		"component": "postprocessor.extractor.HTMLAssets",
@@ -217,18 +234,12 @@ func HTMLAssets(item *models.Item) (assets []*models.URL, err error) {
 
 			link, exists = i.Attr("data-srcset")
 			if exists {
-				links := strings.Split(link, ",")
-				for _, link := range links {
-					rawAssets = append(rawAssets, strings.Split(strings.TrimSpace(link), " ")[0])
-				}
+				rawAssets = append(rawAssets, srcsetURLs(link)...)
 			}
 
 			link, exists = i.Attr("srcset")
 			if exists {
-				links := strings.Split(link, ",")
-				for _, link := range links {
-					rawAssets = append(rawAssets, strings.Split(strings.TrimSpace(link), " ")[0])
-				}
+				rawAssets = append(rawAssets, srcsetURLs(link)...)
 			}
 		})
 	}
@@ -361,18 +372,12 @@ func HTMLAssets(item *models.Item) (assets []*models.URL, err error) {
 
 			link, exists = i.Attr("srcset")
 			if exists {
-				links := strings.Split(link, ",")
-				for _, link := range links {
-					rawAssets = append(rawAssets, strings.Split(strings.TrimSpace(link), " ")[0])
-				}
+				rawAssets = append(rawAssets, srcsetURLs(link)...)
 			}
 
 			link, exists = i.Attr("data-srcset")
 			if exists {
-				links := strings.Split(link, ",")
-				for _, link := range links {
-					rawAssets = append(rawAssets, strings.Split(strings.TrimSpace(link), " ")[0])
-				}
+				rawAssets = append(rawAssets, srcsetURLs(link)...)
 			}
 		})
 	}
